@@ -16,3 +16,4 @@ mod x_palette; // C11
 mod x_tilemap; // C08
 mod x_blend; // C03, C17
 mod x_misc; // C16, C18
+mod x_decoders; // C01, C04, C11, C15 (decoder contracts executed natively)
